@@ -1375,6 +1375,42 @@ fn check(ctx: &Ctx) -> i32 {
         check_rule(&rules_d[i as usize], &rq_a, l);
     });
 
+    // ---- cube E: long initiator-domain lists ---------------------------------------------------
+    // every subset of size 3..=8 of a 10-domain pool, once as an all-positive and once as an
+    // all-negated list (the union pre-filter of check_options only starts to matter with several
+    // entries), against the listed domains themselves, three sub-domains of each, unrelated
+    // initiators and an absent one
+    let pool_e = ["e0.com", "e1.net", "e2.com", "e3.net", "e4.com", "e5.net", "e6.com", "e7.net", "e8.com", "e9.net"];
+    let mut rules_e: Vec<String> = vec![];
+    for m in 0u32..(1 << pool_e.len()) {
+        let k = m.count_ones();
+        if !(3..=8).contains(&k) {
+            continue;
+        }
+        let doms: Vec<&str> = pool_e.iter().enumerate().filter(|(i, _)| m & (1 << i) != 0).map(|(_, d)| *d).collect();
+        rules_e.push(format!("ads$domain={}", doms.join("|")));
+        rules_e.push(format!("ads$domain=~{}", doms.join("|~")));
+    }
+    let mut rq_e: Vec<Rq> = vec![];
+    {
+        let mut inits: Vec<String> = vec![String::new(), "https://unrelated.com/".into(), "https://zz.unrelated.net/p".into()];
+        for d in pool_e {
+            for sub in ["", "m.", "shop.", "a.b."] {
+                inits.push(format!("https://{}{}/page", sub, d));
+            }
+        }
+        for i in &inits {
+            if let Some(r) = make_rq("https://site.com/ads", i, "script") {
+                rq_e.push(r);
+            }
+        }
+    }
+    ctx.bound("cubeE_rules", rules_e.len());
+    ctx.bound("cubeE_requests_per_rule", rq_e.len());
+    ctx.par_range("cubeE:long-domain-lists", rules_e.len() as u64, 8, |i, l| {
+        check_rule(&rules_e[i as usize], &rq_e, l);
+    });
+
     {
         let mut l = Local::default();
         for (k, v) in counters {
@@ -1385,7 +1421,7 @@ fn check(ctx: &Ctx) -> i32 {
 
     ctx.finish(
         "model_checking",
-        "A: 6 pattern forms x every purely positive and purely negated list over the 11 type atoms (quick: 2048 positive + 63 negated over 6 atoms) x with/without document x 7 party spellings x exception x important (thorough: options also in reversed order), each against 25 type strings x 6 schemes x {third-party, first-party, absent} initiators (scheme-pinned forms additionally against a URL carrying http/https/ws as path tokens, 6 type strings); B: 79 ordered domain lists over {a.com, sub.a.com, b.com} x domain=/from= x party x 4 (thorough 10) type lists x {ads, *} x exception, against 6 initiators x first-/third-party host x 4 schemes x 4 types; C: full-regex literal rules x match-case x option, against URL case variants, plus match-case on non-regex rules; D: 18 option spellings singly and in pairs, all option orders of 4 option sets. Every rule is evaluated with NetworkFilter::matches and on a single-rule engine. A case is non-trivial when the reference or the implementation says the rule applies; states = rules parsed + engines built, transitions = (rule, request, observation point) executions, traces_validated = executions compared with the reference.",
+        "A: 6 pattern forms x every purely positive and purely negated list over the 11 type atoms (quick: 2048 positive + 63 negated over 6 atoms) x with/without document x 7 party spellings x exception x important (thorough: options also in reversed order), each against 25 type strings x 6 schemes x {third-party, first-party, absent} initiators (scheme-pinned forms additionally against a URL carrying http/https/ws as path tokens, 6 type strings); B: 79 ordered domain lists over {a.com, sub.a.com, b.com} x domain=/from= x party x 4 (thorough 10) type lists x {ads, *} x exception, against 6 initiators x first-/third-party host x 4 schemes x 4 types; C: full-regex literal rules x match-case x option, against URL case variants, plus match-case on non-regex rules; D: 18 option spellings singly and in pairs, all option orders of 4 option sets; E: every subset of 3..8 of a 10-domain pool as an all-positive and as an all-negated domain= list, against each listed domain, three sub-domains of each, unrelated and absent initiators. Every rule is evaluated with NetworkFilter::matches and on a single-rule engine. A case is non-trivial when the reference or the implementation says the rule applies; states = rules parsed + engines built, transitions = (rule, request, observation point) executions, traces_validated = executions compared with the reference.",
         &[
             "Unspecified (executed, not compared): mixed positive+negated type lists; positive domain= list or party option with an absent initiator; request type strings csp_report and unknown ('fetch'); unsupported schemes at matcher level (asserted at the engine only)",
             "exception rules are observed on single-rule engines through check_network_request_subset(req, true, true), blocking rules through check_network_request",
